@@ -1083,6 +1083,72 @@ def run_gate(job):
     return dict(results=out)
 
 
+def run_neglen(job):
+    """Witness of C20_size_bound_strong_refuted on the REAL application (real do_PUT): a PUT with
+    `Content-Length: -1` and a body larger than max_content_length; how many body bytes does the handler read?"""
+    global CURRENT
+    from radicale import httputils
+    folder = tempfile.mkdtemp(prefix="rv-c20n-")
+    conf = config.load()
+    conf.update({"server": {"hosts": "127.0.0.1:0", "max_content_length": str(job["max_len"]), "timeout": "5"},
+                 "storage": {"filesystem_folder": os.path.join(folder, "coll")}, "auth": {"type": "none"},
+                 "logging": {"level": "critical"}}, "verif", privileged=True)
+    ports, sizes = [], []
+    orig_read = httputils.read_raw_request_body
+
+    def counting_read(configuration, environ):
+        r = orig_read(configuration, environ)
+        sizes.append(len(r))
+        return r
+
+    class Probe:
+        serve_thread = None
+
+        def register_server(self, srv):
+            ports.append(srv.socket.getsockname()[1])
+    out = dict(declared=job["declared"], sent=job["body"], max_len=job["max_len"])
+    a, b = socket.socketpair()
+    saved = rs.Application
+    try:
+        rs.Application = Application
+        httputils.read_raw_request_body = counting_read
+        CURRENT = Probe()
+        t = threading.Thread(target=rs.serve, args=(conf, b), daemon=True)
+        t.start()
+        end = time.monotonic() + DEADLINE
+        while not ports and time.monotonic() < end:
+            time.sleep(0.01)
+        CURRENT = None
+        s = socket.create_connection(("127.0.0.1", ports[0]), timeout=DEADLINE)
+        s.sendall(("PUT /u/c.ics HTTP/1.1\r\nHost: x\r\nAuthorization: Basic dTpw\r\nContent-Length: %s\r\n\r\n"
+                   % job["declared"]).encode())
+        try:
+            s.sendall(b"x" * job["body"])
+            s.shutdown(socket.SHUT_WR)
+        except OSError:
+            pass
+        data = b""
+        try:
+            while True:
+                chunk = s.recv(65536)
+                if not chunk:
+                    break
+                data += chunk
+        except OSError:
+            pass
+        out["status"] = parse_response(data)[0]
+        out["bytes_read_by_handler"] = sizes
+    except Exception:
+        out["error"] = traceback.format_exc()
+    finally:
+        CURRENT = None
+        rs.Application = saved
+        httputils.read_raw_request_body = orig_read
+        a.close()
+        shutil.rmtree(folder, ignore_errors=True)
+    return out
+
+
 def main():
     jobs = json.load(open(sys.argv[1]))
     out = []
@@ -1090,6 +1156,8 @@ def main():
         try:
             if job["kind"] == "script":
                 out.append(run_script(job))
+            elif job["kind"] == "neglen":
+                out.append(run_neglen(job))
             else:
                 out.append(run_gate(job))
         except BaseException:
